@@ -519,6 +519,69 @@ SUB_ALPHABET = [ev for ev in E2E_EVENTS
                 if ev[0] == 'block' or (ev[1] == 'one' and ev[5] in ('none', 'wrong'))]
 
 
+class PluginSpec(E2ESpec):
+    """the same directive histories as the doctest of a module function run through the *pytest plugin* (which
+    decides on its own, before running, whether a doctest is "disabled"): executed statements and verdict as the model"""
+    title = 'directive histories through pytest --xdoctest'
+    batch = 8
+
+    def __init__(self, max_len, max_cost, name):
+        E2ESpec.__init__(self, max_len, max_cost, name, alphabet=SUB_ALPHABET, with_opts=False)
+        self.rule = ('histories of <= %d events over block directives and one-line statements (with / without inline '
+                     'directive, with / without a wrong want), cost <= %d, written into a module and run with pytest --xdoctest; '
+                     'non-trivial = as for the e2e specs' % (max_len, max_cost))
+
+    def run_case(self, hist):
+        import io
+        import os
+        import sys
+        import contextlib
+        import pytest
+        m = self.model(hist)
+        if m['unspec'] or not m['text'].strip():
+            return {'atoms': [], 'outcome': 'unspecified', 'case': {'doctest': m['text']}, 'nontrivial': 0, 'unspec': 1}
+        body = '\n'.join(('        ' + l) if l else '' for l in m['text'].split('\n'))
+        src = 'TRACE = []\n' + harness.PRE + '\n\ndef f():\n    """\n    Example:\n%s\n    """\n' % body
+        outcome = {}
+
+        class Rec(object):
+            def pytest_runtest_logreport(self, report):
+                if report.when == 'call' or (report.when == 'setup' and report.outcome != 'passed'):
+                    outcome['f'] = report.outcome
+        atoms = []
+        with harness.scratch_dir('c04p') as d:
+            modname = harness.unique_modname('m04p', src)
+            with open(os.path.join(d, modname + '.py'), 'w') as fh:
+                fh.write(src)
+            cwd = os.getcwd()
+            os.chdir(d)
+            buf = io.StringIO()
+            try:
+                with contextlib.redirect_stdout(buf), contextlib.redirect_stderr(buf), harness.fresh_process_warning_filters():
+                    pytest.main(['--xdoctest', '--xdoctest-style=google', '-p', 'no:cacheprovider', '-q', '--rootdir', d, '-c', '/dev/null',
+                                 modname + '.py'], plugins=[Rec()])
+                mod = sys.modules.get(modname)
+                trace = list(mod.TRACE) if mod is not None else []
+            except BaseException as ex:
+                if type(ex).__name__ == 'CaseTimeout':
+                    raise
+                atoms.append({'sig': 'plugin:raises:' + type(ex).__name__, 'msg': repr(ex)})
+                trace = None
+            finally:
+                os.chdir(cwd)
+                harness.forget_modules(modname)
+        exp_v = m['verdict'][0] if isinstance(m['verdict'], tuple) else m['verdict']
+        got_v = outcome.get('f')
+        if trace is not None:
+            if trace != m['trace']:
+                extra = [t for t in trace if t not in m['trace']]
+                kind = 'ran-skipped-code' if extra else 'skipped-enabled-code'
+                atoms.append({'sig': 'plugin:trace:' + kind, 'msg': 'pytest executed %r, model %r (reported %s)' % (trace, m['trace'], got_v)})
+            if got_v != exp_v:
+                atoms.append({'sig': 'plugin:verdict:%s-expected-%s' % (got_v, exp_v), 'msg': 'doctest:\n%s' % m['text']})
+        return {'atoms': atoms, 'outcome': '%s/%d' % (got_v, len(trace or ())), 'case': {'doctest': m['text']}, 'nontrivial': m['nontrivial']}
+
+
 # ----------------------------------------------------------------------------------------------
 # the requirement conditions themselves
 
@@ -567,6 +630,15 @@ class ReqCondSpec(Spec):
                         if c2 != c1 and (('XV_Q' in c1 + c2) or q == 0) and (('--' in c1 + c2) or not fl):
                             yield (q, fl, c1, c2)
                             yield (q, fl, c1, c2, '-')
+        # two-step histories in one process: the same condition evaluated again after the environment / the
+        # command line changed (an answer must not be remembered)
+        for c in ('--xv-flag', 'env:XV_Q', 'env:XV_Q==1', 'env:XV_Q!=1', 'module:os'):
+            for q1 in range(len(QVALS)):
+                for q2 in range(len(QVALS)):
+                    for f1 in (False, True):
+                        for f2 in (False, True):
+                            if ('XV_Q' in c or (q1 == 0 and q2 == 0)) and ('--' in c or (not f1 and not f2)):
+                                yield ('twice', q1, f1, q2, f2, c)
 
     def hist_cost(self, hist):
         return len(hist)
@@ -574,6 +646,8 @@ class ReqCondSpec(Spec):
     def run_case(self, hist):
         import os
         import sys
+        if hist[0] == 'twice':
+            return self.run_twice(hist)
         q, fl = QVALS[hist[0]], hist[1]
         conds = [c for c in hist[2:] if c != '-']
         remove = hist[-1] == '-'
@@ -618,9 +692,47 @@ class ReqCondSpec(Spec):
                 'nontrivial': 1}
 
 
+def _run_twice(self, hist):
+    import os
+    import sys
+    _, q1, f1, q2, f2, c = hist
+    text = '>>> # xdoctest: +REQUIRES(%s)\n>>> T(1)' % c
+    atoms = []
+    old_env = os.environ.get('XV_Q')
+    old_argv = sys.argv
+    obs = []
+    try:
+        for step, (qi, fl) in enumerate(((q1, f1), (q2, f2))):
+            q = QVALS[qi]
+            if q is None:
+                os.environ.pop('XV_Q', None)
+            else:
+                os.environ['XV_Q'] = q
+            sys.argv = ['xmc'] + (['--xv-flag'] if fl else [])
+            r = harness.run_doctest(text)
+            ran = r.raised is None and r.trace == [1]
+            exp = COND[c](q, fl)
+            obs.append(ran)
+            if r.raised is not None or ran != exp:
+                atoms.append({'sig': 'requires:answer-depends-on-an-earlier-evaluation' if step else 'requires:first-evaluation-wrong',
+                              'msg': 'REQUIRES(%s): evaluation %d with XV_Q=%r, --xv-flag %s: statement %s, expected %s (history %r)' % (
+                                  c, step + 1, q, 'given' if fl else 'absent', 'ran' if ran else 'did not run', 'run' if exp else 'skip', hist)})
+                break
+    finally:
+        sys.argv = old_argv
+        if old_env is None:
+            os.environ.pop('XV_Q', None)
+        else:
+            os.environ['XV_Q'] = old_env
+    return {'atoms': atoms, 'outcome': '%s' % obs, 'case': {'doctest': text, 'history': list(hist)}, 'nontrivial': 1}
+
+
+ReqCondSpec.run_twice = _run_twice
+
+
 def specs(tier):
     if tier == 'thorough':
         return [UnitSpec(), ReqCondSpec(), E2ESpec(2, 99, 'e2e-len2'), E2ESpec(3, 5, 'e2e-len3'),
                 E2ESpec(4, 3, 'e2e-len4'),
-                E2ESpec(5, 99, 'e2e-sub5', alphabet=SUB_ALPHABET, with_opts=False)]
-    return [UnitSpec(), ReqCondSpec(), E2ESpec(2, 99, 'e2e-len2'), E2ESpec(3, 3, 'e2e-len3')]
+                E2ESpec(5, 99, 'e2e-sub5', alphabet=SUB_ALPHABET, with_opts=False), PluginSpec(3, 4, 'plugin-len3')]
+    return [UnitSpec(), ReqCondSpec(), E2ESpec(2, 99, 'e2e-len2'), E2ESpec(3, 3, 'e2e-len3'), PluginSpec(3, 2, 'plugin-len3')]
